@@ -162,6 +162,19 @@ def resolve_callee(ctx, callee):
         if key in ctx.index:
             if k == len(parts) - 1 and ctx.index_count.get(key, 0) > 1 and len(parts) > 1:
                 continue
+            cands = ctx.index_multi.get(key, [])
+            if len(cands) > 1 and len(parts) == 1:
+                # a bare name printed by rustc is a free function: prefer the definition whose parent path segment is a
+                # module (lower case) over trait / type methods of the same name
+                free = []
+                for f in cands:
+                    segs = re.sub(r"#\d+$", "", f.name).split("::")
+                    if "<impl" in f.name:
+                        continue
+                    if len(segs) == 1 or segs[-2][:1].islower():
+                        free.append(f)
+                if free:
+                    return free[0]
             return ctx.index[key]
     return None
 
